@@ -7,6 +7,7 @@ Driver entries of the lifecycle group (C09).
      r s b t     run / reset / reboot (both stores) / teardown      (R S B T are read the same)
      a0 a1       let the thread leave its parking place and advance to the next one; the digit is
                  what run_condition() returns if the thread is parked inside that call
+     F           (first token only) boot() fails to create the thread
      b1 b2       reboot() split at schedule point 6 (between `reset_ = true` and `run_ = false`, mutex held)
      u           spurious wake-up of the condition wait
      jw          as j, with wait() called while the thread is still held (it must not return early)
@@ -125,7 +126,11 @@ structure Run where
 
 def runTok (cfg : Cfg) (r : Run) (tok : String) : Option Run :=
   let n0 := r.t.s.hist.length
-  if tok == "b1" then
+  if tok == "F" then
+    if r.out.isEmpty then
+      some { r with t := { s := St.bootFailed, vis := #[absState St.bootFailed] }, out := r.out.push (obs tok St.bootFailed 0) }
+    else none
+  else if tok == "b1" then
     let t1 := r.t.step cfg (.c .reboot)
     some { r with t := t1, out := r.out.push (obs tok t1.s n0) }
   else if tok == "b2" then
